@@ -135,6 +135,18 @@ def run(res, b, tier, seed):
         generator_distribution=stats,
         oracle_failures=len(oracle_fail),
     ))
+    # "integers keep their value": the value the program gets for a number literal (the token text is converted by the parser)
+    import pipeline
+    lits = [("0", 0), ("7", 7), ("010", 10), ("0100", 100), ("007", 7), ("08", 8), ("0019", 19), ("00", 0), ("-017", -17), ("-0", 0), ("1234567890", 1234567890),
+            ("9223372036854775807", 9223372036854775807), ("-9223372036854775808", -9223372036854775808), ("0010", 10), ("-08", -8), ("000000000001", 1)]
+    lcases = [pipeline.Case("lit%d" % i, {"main.tsh": ("x := %s\nprint(x)\n" % t).encode()}, meta=dict(text=t, value=v)) for i, (t, v) in enumerate(lits)]
+    pipeline.run_pipe(b, lcases, "a")
+    for c in lcases:
+        cls, payload = c.out.get("AST", ("MISSING", ""))
+        if cls != "OK" or ("(int %d)" % c.meta["value"]) not in payload:
+            oracle_fail.append(("number-literal-value", c.files["main.tsh"], (cls, payload[:200]), ("OK", "... (int %d) ..." % c.meta["value"])))
+    res.coverage["number_literal_values"] = len(lcases)
+    res.coverage["oracle_failures"] = len(oracle_fail)
     res.assumptions += ["Go's regexp/strconv behave as modelled by the hand-written scanners (validated only through the differential run)",
                         "generator's expected tokens are correct by construction (needs_sep is conservative)"]
     # decide
